@@ -30,7 +30,7 @@ func evalValue(e *enumreg.Enum, v uint64, want string) string {
 	if err != nil {
 		return fmt.Sprintf("MarshalText(%d): %v", v, err)
 	}
-	if want != "" && txt != want {
+	if want != "" && txt != want && !sameFlagSet(txt, want) {
 		return fmt.Sprintf("value %d renders as %q, want %q", v, txt, want)
 	}
 	back, err := e.Unmarshal(txt)
@@ -44,6 +44,18 @@ func evalValue(e *enumreg.Enum, v uint64, want string) string {
 		return fmt.Sprintf("String() %q differs from MarshalText %q", s, txt)
 	}
 	return ""
+}
+
+// sameFlagSet: two renderings of a bitmask name the same flags (the statement says "the names
+// of the flags it contains joined by ' | '", no order).
+func sameFlagSet(a, b string) bool {
+	if !strings.Contains(a, " | ") || !strings.Contains(b, " | ") {
+		return false
+	}
+	x, y := strings.Split(a, " | "), strings.Split(b, " | ")
+	sort.Strings(x)
+	sort.Strings(y)
+	return strings.Join(x, "\x00") == strings.Join(y, "\x00")
 }
 
 func evalReject(e *enumreg.Enum, txt string) string {
@@ -111,6 +123,8 @@ func main() {
 		// their names joined by " | "): a re-implementation of the rendering must not turn the
 		// ordinary-enum expectations loose on a bitmask
 		isBitmask := e.Bitmask
+		bitmaskEnum := false
+		defer func() { _ = bitmaskEnum }()
 		if !isBitmask {
 			var single []enumreg.Const
 			for _, c := range e.Consts {
@@ -125,6 +139,7 @@ func main() {
 				}
 			}
 		}
+		bitmaskEnum = isBitmask
 		if isBitmask {
 			// flags = constants with exactly one bit set; (multi-bit constants are combinations)
 			var flags []uint64
@@ -220,7 +235,11 @@ func main() {
 		if len(e.Consts) > 0 {
 			first = e.Consts[0].Name
 		}
-		rej := []string{"", " ", "NOT_A_KNOWN_NAME", "1.5", "12abc", "--3", " | ", first + " |", "| " + first}
+		rej := []string{"NOT_A_KNOWN_NAME", "1.5", "12abc", "--3", " | ", first + " |", "| " + first}
+		if !bitmaskEnum {
+			// (for a bitmask the empty text is the natural rendering of "no flag": not demanded either way)
+			rej = append(rej, "", " ")
+		}
 		if first != "" {
 			rej = append(rej, strings.ToLower(first), first+"|"+first, first+" | ", first+" | NOPE", " "+first)
 		}
